@@ -201,7 +201,7 @@ def declsL : List DS → List (List DE)
 end
 
 mutual
-theorem collectS_items : (s : DS) → (path : List (List String)) → (collectS path s).map (·.items) = declsS s
+theorem collectS_items (kw : Bool) : (s : DS) → (path : List (List String)) → (collectS kw path s).map (·.items) = declsS s
   | .decl .var items, path => by simp [collectS, declsS]
   | .decl .let_ items, path => by simp [collectS, declsS]
   | .decl .const_ items, path => by simp [collectS, declsS]
@@ -213,20 +213,20 @@ theorem collectS_items : (s : DS) → (path : List (List String)) → (collectS 
   | .empty, path => by simp [collectS, declsS]
   | .absent, path => by simp [collectS, declsS]
   | .ifS c t e, path => by
-    simp only [collectS, declsS, List.map_append, collectS_items t path, collectS_items e path]
-  | .block l, path => by simp only [collectS, declsS, collectL_items l _]
+    simp only [collectS, declsS, List.map_append, collectS_items kw t path, collectS_items kw e path]
+  | .block l, path => by simp only [collectS, declsS, collectL_items kw l _]
   | .tryS b x a cb, path => by
-    simp only [collectS, declsS, List.map_append, collectL_items b _, collectL_items cb _]
+    simp only [collectS, declsS, List.map_append, collectL_items kw b _, collectL_items kw cb _]
   | .forS w i c po b, path => by
     cases i with
     | decl k items =>
-      cases k <;> simp only [collectS, declsS, List.map_cons, collectL_items b _]
-    | empty => simp [collectS, declsS, collectL_items b _]
-    | _ => simp only [collectS, declsS, collectL_items b _]
-theorem collectL_items : (l : List DS) → (path : List (List String)) → (collectL path l).map (·.items) = declsL l
+      cases k <;> simp only [collectS, declsS, List.map_cons, collectL_items kw b _]
+    | empty => simp [collectS, declsS, collectL_items kw b _]
+    | _ => simp only [collectS, declsS, collectL_items kw b _]
+theorem collectL_items (kw : Bool) : (l : List DS) → (path : List (List String)) → (collectL kw path l).map (·.items) = declsL l
   | [], path => by simp [collectL, declsL]
   | s :: t, path => by
-    simp only [collectL, declsL, List.map_append, collectS_items s path, collectL_items t path]
+    simp only [collectL, declsL, List.map_append, collectS_items kw s path, collectL_items kw t path]
 end
 
 mutual
@@ -691,14 +691,15 @@ theorem namesZ_own (best : Nat) (pre post : List String) : ∀ (ds : List DeclIn
           | false => simpa [hoistedNames] using h2
 
 /-- **`hoistVars` keeps the set of `var` names of the function** -/
-theorem hoist_names (body : List DS) (y : String) : y ∈ varNamesL (hoistBody body) ↔ y ∈ varNamesL body := by
-  unfold hoistBody
-  cases hp : plan (collectL [] body) with
+theorem hoist_names (kw : Bool) (body : List DS) (y : String) :
+    y ∈ varNamesL (hoistBodyG kw body) ↔ y ∈ varNamesL body := by
+  unfold hoistBodyG
+  cases hp : plan (collectL kw [] body) with
   | none => rfl
   | some p =>
     simp only
-    rw [applyL_names p body 0 y, varNamesL_decls body y, ← collectL_items body [], namesFrom_eq]
-    generalize hds : collectL [] body = ds at hp
+    rw [applyL_names p body 0 y, varNamesL_decls body y, ← collectL_items kw body [], namesFrom_eq]
+    generalize hds : collectL kw [] body = ds at hp
     -- unfold the plan
     unfold plan at hp
     split at hp
